@@ -115,3 +115,7 @@ claim("C37", "mc-kernels", "exploration",
       "exhaustive box enumeration (block size x k-blocks x m x n x batch x code fills x scales x compute mode x ISA) against dequantize-then-naive-matmul",
       "BlockQuantizedGemm in both compute modes on every f32 kernel/ISA and the MatMulNBits operator: block sizes {16,32,64}, k-blocks {1,2,3,9}, n in {1,2,15,16,17,33}, m in {1,2,3}, batch {1,2,3}, 33 4-bit code fills, 4 scale families, exact-integer LHS families (equality oracle in Float and Int8 mode) and a float LHS family (1e-5 forward-error bound, Float mode).",
       "Int8 compute mode only on the int8-dot ISA that dispatch selects on this host; explicit zero_points / partial final blocks are rejected by rten today (an error, not a wrong product) and are only checked for not producing a wrong result.")
+claim("C09", "mc-tensor", "model_checking",
+      "explicit-state exploration of chains of layout operations on real tensors/views, reference NestedArray model stepped in lock-step, state de-duplication on (pointer, shape, strides)",
+      "Start tensors: every shape of rank<=3 over {0,1,2,3} as contiguous owned, strided view of a bigger buffer, and owned with spare capacity (with_capacity+append), plus 11 larger layouts that reach copy.rs blocked paths; chains of depth 2 (thorough 3) over try_slice/slice/slice_copy with every item list over per-axis alphabets of indices and stepped/negative/clamped ranges, slice_axis, index_axis, split_at, permuted (all + invalid), transposed, move_axis, insert/remove_axis, merge_axes, squeezed, broadcast to every shape of rank<=3(4), reshaped/to_shape/into_shape to every factorisation, clip_dim, append, to_contiguous, to_tensor, map, copy_into_slice. Subject success implies model success with equal shape and elements; model-valid operations of the non-fallible API must succeed.",
+      "The reference model's reading of slice_copy is NumPy semantics (clamped endpoints), of slice/try_slice strict bounds, as documented in rten-tensor; element type i32 only.")
